@@ -124,6 +124,25 @@ static int op_set_d(int argc, tok_t *a, out_t *o) {
   mpq_clear(q); return 0;
 }
 
+/* mpq_set_f n0 d0 sign [limbs] exp : the mpf operand is built field by field (top limb non-zero) */
+static int op_set_f(int argc, tok_t *a, out_t *o) {
+  NEED(argc == 5 && a[0].kind == T_NUM && a[1].kind == T_NUM && a[2].kind == T_NUM && a[3].kind == T_VEC && a[4].kind == T_NUM && fits_long(&a[4]));
+  long n = a[3].n; NEED(n == 0 || a[3].d[n - 1] != 0);
+  mpq_t q; mpf_t f; mpq_init(q); load(q, &a[0], &a[1]);
+  mpf_init2(f, 64 * (n > 0 ? n : 1));
+  NEED(n <= f->_mp_prec + 1);
+  for (long i = 0; i < n; i++) f->_mp_d[i] = a[3].d[i];
+  f->_mp_size = a[2].neg ? -(int)n : (int)n; f->_mp_exp = n ? get_long(&a[4]) : 0;
+  mpq_set_f(q, f); out_mpq(o, q);
+  mpq_clear(q); mpf_clear(f); return 0;
+}
+static int op_get_d(int argc, tok_t *a, out_t *o) {
+  NEED(argc == 2 && allnum(argc, a));
+  mpq_t q; mpq_init(q); load(q, &a[0], &a[1]);
+  double d = mpq_get_d(q); uint64_t b; memcpy(&b, &d, 8); out_ulong(o, b);
+  mpq_clear(q); return 0;
+}
+
 /* ---- swap / comparisons on two variables; mode 0 distinct, 1 the same variable */
 static int two_vars(int argc, tok_t *a, mpq_t v1, mpq_t v2, mpq_ptr *u, mpq_ptr *v) {
   NEED(argc == 5 && allnum(argc, a) && fits_long(&a[0]));
@@ -176,6 +195,7 @@ const opdef_t ops_mpq[] = {
   {"mpq_canonicalize", op_canonicalize},
   {"mpq_set_z", op_set_z}, {"mpq_set_num", op_set_num}, {"mpq_set_den", op_set_den},
   {"mpq_set_si", op_set_si}, {"mpq_set_ui", op_set_ui}, {"mpq_set_d", op_set_d},
+  {"mpq_set_f", op_set_f}, {"mpq_get_d", op_get_d},
   {"mpq_swap", op_swap}, {"mpq_cmp", op_cmp}, {"mpq_equal", op_equal},
   {"mpq_cmp_z", op_cmp_z}, {"mpq_cmp_ui", op_cmp_ui}, {"mpq_cmp_si", op_cmp_si},
   {0, 0}
